@@ -80,6 +80,103 @@ pub fn f1_soup(rng: &mut Rng, name: &str) -> Def {
     def
 }
 
+/// F1x exotic regex syntax: spellings the soup never produces (POSIX / set-operation / nested classes,
+/// hex and Unicode escapes, named groups, flag switches in mid-pattern, verbose mode, CRLF mode,
+/// swap-greed, zero and exact counts, empty alternatives), combined in small definitions.
+pub fn f1x_exotic(rng: &mut Rng, name: &str) -> Def {
+    let bytes_mode = rng.chance(1, 4);
+    let mut def = Def::new(name, "F1x", !bytes_mode);
+    const CLASSES: &[&str] = &[
+        "[[:alpha:]]", "[[:^digit:]&&[a-z0-9]]", "[a-z&&[^aeiou]]", "[a-z--m-p]", "[a-f~~d-k]", "[\\d\\s]", "[[:punct:]]", "[[:xdigit:]]",
+        "[\\p{Greek}--\\p{Lu}]", "\\pN", "\\p{sc=Greek}", "\\p{Script=Cyrillic}", "[[a-c][x-z]]", "[^\\p{L}\\p{N}\\s]", "[\\x41-\\x5A]",
+        "[\\u00E0-\\u00FF]", "[a-c[:digit:]]", "[\\x{1F600}-\\x{1F64F}]", "[^[:^alpha:]]", "[\\w--\\d]", "[\\w&&[^_]]", "[-a]", "[a-]", "[]a]", "[^]a]",
+        "[\\^a]", "[a\\-c]", "[&&a]", "[\\p{Lu}&&\\p{Greek}]", "[\\P{L}&&\\p{ASCII}]", "[\\s--\\n]", "\\p{Nd}", "[\\pL&&[^\\p{Ll}]]",
+    ];
+    const LITS: &[&str] = &[
+        "\\x41", "\\x{41}", "\\u0041", "\\u{e9}", "\\U0001F600", "\\x{1F600}", "\\a", "\\f", "\\v", "\\t", "\\x7F", "\\x00", "\\u00DF", "\\u{212A}",
+        "\\/", "\\%", "\\<", "\\>", "\\ ", "\\-", "\\#", "\\&", "\\~", "é", "ſ", "\\x{10FFFF}", "\\u{7FF}", "\\u{800}", "\\u{FFFF}", "\\u{10000}",
+    ];
+    const BYTE_ATOMS: &[&str] = &[
+        "(?-u:\\xFF)", "(?-u:[\\x80-\\xBF])", "(?-u:[^\\x00-\\x7F])", "(?-u:\\xC3\\xA9)", "(?-u:[[:^ascii:]])", "(?-u:\\W)", "(?-u:[\\xF0-\\xF4])",
+        "(?-u:\\xE2\\x82)", "(?i-u:k)", "(?-u:\\x00)", "(?-u:[\\x7F-\\x80])", "(?-u:\\D)",
+    ];
+    const LOOKS: &[&str] = &["(?Rm:$)", "(?R:$)", "(?-u:\\b{end})", "(?-u:\\b{start})", "(?-u:\\b{start-half})", "(?-u:\\b{end-half})", "\\z", "$", "(?m:$)", "(?-u:\\B)", "(?-u:\\b)"];
+    let atom = |rng: &mut Rng| -> String {
+        let roll = rng.below(100);
+        if bytes_mode && roll < 25 {
+            rng.pick_str(BYTE_ATOMS).to_string()
+        } else if roll < 55 {
+            rng.pick_str(CLASSES).to_string()
+        } else if roll < 80 {
+            rng.pick_str(LITS).to_string()
+        } else {
+            let c = *rng.pick(ALPHA_ASCII);
+            let mut t = String::new();
+            escape_char(c, &mut t);
+            t
+        }
+    };
+    let seq = |rng: &mut Rng, n: usize| -> String { (0..n).map(|_| atom(rng)).collect::<Vec<_>>().concat() };
+    let npat = rng.range(1, 4);
+    for _ in 0..npat {
+        let a = atom(rng);
+        let nb = rng.range(1, 2);
+        let b = seq(rng, nb);
+        let c = atom(rng);
+        let text = match rng.below(26) {
+            0 => format!("(?P<n>{a}){b}"),
+            1 => format!("(?<n>{a}{b})"),
+            2 => format!("{a}(?i){b}"),
+            3 => format!("(?i){a}(?-i){b}"),
+            4 => format!("(?i:{a})(?-i:{b})"),
+            5 => format!("(?x: {a} {b} # tail\n {c} )"),
+            6 => format!("(?x){a} {b}#c"),
+            7 => format!("(?U:{a}+){b}"),
+            8 => format!("(?U:{a}*?){b}"),
+            9 => format!("{a}{{0}}{b}"),
+            10 => format!("{a}{{0,0}}{b}{c}{{1}}"),
+            11 => format!("({a}{{2}}){{2}}{b}"),
+            12 => format!("{a}{{1,1}}{b}{{0,3}}{c}"),
+            13 => format!("{a}{{3,}}"),
+            14 => format!("{a}(|{b})"),
+            15 => format!("(?:{a}|){b}"),
+            16 => format!("{a}(?:){b}"),
+            17 => format!("(){a}{b}"),
+            18 => format!("{a}??{b}"),
+            19 => format!("{a}{{2,3}}?{b}"),
+            20 => {
+                let l = rng.pick_str(LOOKS);
+                format!("{a}{b}{l}")
+            }
+            21 => {
+                let l = rng.pick_str(LOOKS);
+                format!("{a}{l}{b}")
+            }
+            22 => format!("(?R:{a}\\r?\\n(?m:$))|{b}"),
+            23 => format!("(?s:{a}.{b})"),
+            24 => format!("{a}(?:{b}|{c})+"),
+            _ => format!("{a}{b}|{c}{a}"),
+        };
+        let mut p = Pat::regex(&text, 0);
+        if rng.chance(1, 10) {
+            p.ignore_case = true;
+        }
+        def.push(p);
+    }
+    if rng.chance(1, 2) {
+        let len = rng.range(1, 3);
+        let text: String = (0..len).map(|_| *rng.pick(ALPHA_ASCII)).collect();
+        def.push(Pat::token(&text, 0));
+    }
+    if rng.chance(1, 2) {
+        def.push(Pat::skip(rng.pick_str(&["[[:space:]]+", "(?x: \\x20 | \\n )", "\\x20+", "[\\s--\\n]+", "\\p{Zs}", "(?:\\r?\\n)+", "[[:blank:]]"])));
+    }
+    assign_priorities(rng, &mut def);
+    maybe_slice_variants(rng, &mut def);
+    def.normalize();
+    def
+}
+
 const KEYWORDS: &[&str] = &[
     "if", "in", "int", "into", "is", "impl", "else", "elif", "enum", "end", "for", "fn", "false", "final", "finally",
     "let", "loop", "match", "mod", "move", "mut", "pub", "ref", "return", "self", "Self", "static", "struct", "super",
@@ -1092,7 +1189,8 @@ pub fn f7_curated() -> Vec<Def> {
 /// Pick a family by index for the general-purpose mix used by C01/C02/C03 etc.
 pub fn mixed(rng: &mut Rng, name: &str, i: usize) -> Def {
     match i % 12 {
-        0 | 1 | 2 => f1_soup(rng, name),
+        0 | 1 => f1_soup(rng, name),
+        2 => f1x_exotic(rng, name),
         3 | 4 => f2_keywords(rng, name),
         5 => f3_unicode(rng, name),
         6 => f4_bytes(rng, name),
